@@ -362,6 +362,11 @@ impl Property for C11 {
                     knobs: Knobs { max_ops: 60, ..Default::default() },
                 },
                 small,
+                Plan {
+                    name: "hist-xml-keys",
+                    kind: PlanKind::Random { cases: 60_000, max_len: 400 },
+                    knobs: Knobs { max_ops: 60, variant: 1, ..Default::default() },
+                },
             ],
             Tier::Thorough => vec![
                 Plan {
@@ -371,6 +376,11 @@ impl Property for C11 {
                 },
                 small,
                 small2,
+                Plan {
+                    name: "hist-xml-keys",
+                    kind: PlanKind::Random { cases: 600_000, max_len: 500 },
+                    knobs: Knobs { max_ops: 80, variant: 1, ..Default::default() },
+                },
             ],
         }
     }
@@ -378,16 +388,34 @@ impl Property for C11 {
     fn check(&self, src: &mut Src, ctx: &mut Ctx) -> Verdict {
         let small = ctx.knobs.small;
         let mut xot = Xot::new();
+        // plan hist-xml-keys: the keys of the xml namespace and prefix are keys like any other — xml:id and
+        // xml:lang among the attribute keys (with values that have leading, trailing and doubled spaces:
+        // the maps store what they are given), an explicit xmlns:xml declaration among the prefixes
+        let xml_keys = ctx.knobs.variant == 1;
         let an: Vec<QName> = if small {
             vec![QName::new("", "a"), QName::new("", "b")]
+        } else if xml_keys {
+            vec![QName::new("", "a"), QName::new(XML_NS, "id"), QName::new(XML_NS, "space"), QName::new(XML_NS, "lang")]
         } else {
             vec![QName::new("", "a"), QName::new("", "b"), QName::new("", "c"), QName::new(XML_NS, "lang")]
         };
         let akeys: Vec<(String, NameId)> = an.iter().map(|q| (q.show(), name_id(&mut xot, q))).collect();
-        let np: Vec<&str> = if small { vec!["", "p"] } else { vec!["", "p", "q", "r"] };
+        let np: Vec<&str> = if small {
+            vec!["", "p"]
+        } else if xml_keys {
+            vec!["", "p", "q", "xml"]
+        } else {
+            vec!["", "p", "q", "r"]
+        };
         let nkeys: Vec<(String, PrefixId)> = np.iter().map(|p| (p.to_string(), xot.add_prefix(p))).collect();
         let uris = ["urn:a", "urn:b"];
-        let vals = if small { vec!["x", "y"] } else { vec!["", "v", "w", "a b"] };
+        let vals = if small {
+            vec!["x", "y"]
+        } else if xml_keys {
+            vec![" v", "w ", "a  b", "preserve"]
+        } else {
+            vec!["", "v", "w", "a b"]
+        };
         let ename = xot.add_name("e");
         let e1 = xot.new_element(ename);
         let e2 = xot.new_element(ename);
@@ -437,6 +465,8 @@ impl Property for C11 {
                 let k = src.choice(st.nkeys.len());
                 let u = uris[src.choice(2)].to_string();
                 let (ks, kid) = st.nkeys[k].clone();
+                // the xml prefix is only ever declared as what it is
+                let u = if ks == "xml" { XML_NS.to_string() } else { u };
                 if st.nss[i].iter().any(|e| e.key == ks) {
                     continue;
                 }
@@ -804,6 +834,7 @@ impl Property for C11 {
                     let k = src.choice(st.nkeys.len());
                     let (ks, kid) = st.nkeys[k].clone();
                     let u = uris[src.choice(2)].to_string();
+                    let u = if ks == "xml" { XML_NS.to_string() } else { u };
                     let uid = st.xot.add_namespace(&u);
                     let pos = st.nss[i].iter().position(|en| en.key == ks);
                     let opc = src.choice(13);
